@@ -1,3 +1,240 @@
-(* Handlers for text codecs, engine scripts, tables; extended below. *)
-let handle (line : string) (_kind : string) (_args : string list) (_obs : string) : unit =
-  failwith ("unknown case kind: " ^ line)
+(* Text codecs, engine game and UCI position commands (C10, C14, C19). *)
+open Model
+open Common
+open Conv
+
+let split_on c s = String.split_on_char c s
+let split_str (sep : string) (s : string) : string list = Str.split_delim (Str.regexp_string sep) s
+let ws s = List.filter (fun w -> w <> "") (split_on ' ' s)
+
+let str_of_codes (tok : string) : n list =
+  if tok = "-" then [] else List.map (fun x -> n_of_int (int_of_string x)) (split_on ',' tok)
+let codes_of_str (s : n list) : string =
+  if s = [] then "-" else String.concat "," (List.map (fun x -> string_of_int (int_of_n x)) s)
+
+let parse_pos = Dispatch2.parse_pos
+let pos_str = Dispatch2.pos_str
+let norm_pos tok = String.concat "," (List.map Dispatch2.norm_hex (split_on ',' tok))
+
+let zt0 () = (try Hashtbl.find Dispatch2.zkeys "0" with Not_found -> failwith "zkeys line for seed 0 missing")
+
+(* model's view of decode, in the harness' observation format *)
+let decode_obs (s : n list) : string =
+  match decode s with
+  | Err -> "ERR"
+  | Crash -> "CRASH"
+  | Ok (((pos, turn), np), fm) ->
+    let enc = encode pos turn np fm in
+    let again = (match decode enc with
+        | Ok (((p2, t2), n2), f2) -> pos_eqb p2 pos && int_of_n t2 = int_of_n turn && int_of_z n2 = int_of_z np && int_of_z f2 = int_of_z fm
+        | _ -> false) in
+    Printf.sprintf "OK %s %d %d %d %s %s" (pos_str pos) (int_of_n turn) (int_of_z np) (int_of_z fm) (codes_of_str enc) (if again then "1" else "0")
+
+let norm_decode_obs (o : string) : string =
+  match ws o with
+  | "OK" :: p :: rest -> String.concat " " ("OK" :: norm_pos p :: rest)
+  | _ -> String.trim o
+
+let handle_fenrt line args obs =
+  match args with
+  | [ptok; turn; np; fm] ->
+    let p = parse_pos ptok in
+    let t = n_of_int (int_of_string turn) in
+    (match split_str " | " obs with
+     | [enc; dobs] ->
+       let menc = encode p t (z_of_int (int_of_string np)) (z_of_int (int_of_string fm)) in
+       if codes_of_str menc <> String.trim enc then report_mismatch line ("encode: " ^ codes_of_str menc);
+       let md = decode_obs (str_of_codes (String.trim enc)) in
+       if md <> norm_decode_obs dobs then report_mismatch line ("decode: " ^ md);
+       if inv_b p then begin
+         bump "fen/roundtrip";
+         if int_of_n p.enpassant <> 0 then bump "fen/with-ep";
+         let expect = Printf.sprintf "OK %s %s %s %s" (norm_pos ptok) turn np fm in
+         let got = (match ws dobs with "OK" :: pp :: tt :: nn :: ff :: _ -> Printf.sprintf "OK %s %s %s %s" (norm_pos pp) tt nn ff | _ -> String.trim dobs) in
+         if got <> expect then report_spec ~key:"prop=C14" line ("decoding the encoded position gives " ^ got);
+         (* canonical string: re-encoding reproduces it *)
+         (match ws dobs with
+          | "OK" :: _ :: _ :: _ :: _ :: enc2 :: _ -> if enc2 <> String.trim enc then report_spec ~key:"prop=C14" line "re-encoding a canonical FEN does not reproduce it"
+          | _ -> ())
+       end
+     | _ -> failwith "fenrt obs")
+  | _ -> failwith ("bad fenrt: " ^ short line)
+
+let handle_decode line args obs =
+  match args with
+  | [ctok] ->
+    let s = str_of_codes ctok in
+    let md = decode_obs s in
+    let o = norm_decode_obs obs in
+    if md <> o then report_mismatch line md;
+    bump (match ws o with k :: _ -> "decode/" ^ k | [] -> "decode/?");
+    (match ws o with
+     | ["CRASH"] -> report_spec ~key:"prop=C19" line "decoding crashed"
+     | ["NIL"] -> report_spec ~key:"prop=C19" line "decoding returned neither an error nor a position"
+     | "OK" :: p :: t :: np :: fm :: _ :: again :: _ ->
+       let d = (((parse_pos p, n_of_int (int_of_string t)), z_of_int (int_of_string np)), z_of_int (int_of_string fm)) in
+       if not (wf_value d) then report_spec ~key:"prop=C19" line "accepted FEN decodes to a value that is not well formed"
+       else if again <> "1" then report_spec ~key:"prop=C19" line "accepted FEN re-encodes to a FEN that decodes differently"
+     | _ -> ())
+  | _ -> failwith ("bad decode: " ^ short line)
+
+let handle_parsemove line args obs =
+  match args with
+  | [ctok] ->
+    let m = (match parse_move (str_of_codes ctok) with
+        | Some m -> Printf.sprintf "OK %d %d %d" (int_of_n m.mfrom) (int_of_n m.mto) (int_of_n m.mpromo)
+        | None -> "ERR") in
+    bump "parsemove";
+    if m <> String.trim obs then report_mismatch line m
+  | _ -> failwith "bad parsemove"
+
+let handle_parsesq line args obs =
+  match args with
+  | [ctok] ->
+    let m = (match parse_square_str (str_of_codes ctok) with Some s -> Printf.sprintf "OK %d" (int_of_n s) | None -> "ERR") in
+    bump "parsesq";
+    if m <> String.trim obs then report_mismatch line m
+  | _ -> failwith "bad parsesq"
+
+let empty_engine () : engine =
+  let zt = zt0 () in
+  fst (eng_reset zt { e_heap = []; e_board = snd (new_board zt [] (Model.empty_position N0 N0) N0 N0 Z0) } fen_initial)
+
+let handle_engmove line args obs =
+  match args with
+  | [stok; mtok] ->
+    let zt = zt0 () in
+    let (e0, ok0) = eng_reset zt (empty_engine ()) (str_of_codes stok) in
+    if not ok0 then failwith "engmove: start fen rejected by the model";
+    let ms = str_of_codes mtok in
+    let (e1, ok) = eng_move zt e0 ms in
+    let m = if ok then "ACC " ^ codes_of_str (eng_position e1) else "REJ 1" in
+    let o = String.trim obs in
+    if m <> o then report_mismatch line m;
+    (match gstate_of_fen (str_of_codes stok) with
+     | Some g when (match decode (str_of_codes stok) with Ok (((p, t), _), _) -> wf_b p t | _ -> false) ->
+       let denotes = (smove_of_str g ms <> None) in
+       bump (if denotes then "engmove/legal" else "engmove/not-a-legal-move");
+       (match ws o with
+        | "ACC" :: _ -> if not denotes then report_spec ~key:"prop=C19" line "move accepted although it does not denote a legal move"
+        | ["REJ"; same] ->
+          if denotes then report_spec ~key:"prop=C19" line "legal move rejected"
+          else if same <> "1" then report_spec ~key:"prop=C19" line "rejected input changed the game state"
+        | _ -> ())
+     | _ -> bump "engmove/other-start")
+  | _ -> failwith "bad engmove"
+
+(* fields of a FEN observation compared with a specification game state *)
+let fen_matches_game (fen : n list) (g : gstate) : string option =
+  match decode fen with
+  | Ok (((p, t), np), fm) ->
+    if not (spos_eqb (abs_pos p) g.g_pos) then Some "position"
+    else if color_of t <> g.g_turn then Some "side to move"
+    else if int_of_z np <> int_of_z g.g_clock then Some (Printf.sprintf "half-move clock %d, expected %d" (int_of_z np) (int_of_z g.g_clock))
+    else if int_of_z fm <> int_of_z g.g_fullmove then Some (Printf.sprintf "full-move number %d, expected %d" (int_of_z fm) (int_of_z g.g_fullmove))
+    else None
+  | _ -> Some "reported FEN does not decode"
+
+let handle_engfen line args obs =
+  match args with
+  | stok :: "::" :: ops ->
+    let zt = zt0 () in
+    let (e0, ok0) = eng_reset zt (empty_engine ()) (str_of_codes stok) in
+    if not ok0 then failwith "engfen: start rejected";
+    let observed = List.map String.trim (split_str " | " obs) in
+    let e = ref e0 in
+    let g = ref (gstate_of_fen (str_of_codes stok)) in
+    let gstack = ref [] in
+    let check i =
+      let o = List.nth observed i in
+      let m = codes_of_str (eng_position !e) in
+      if m <> o then report_mismatch line (Printf.sprintf "op#%d: %s" i m);
+      (match !g with
+       | Some gs -> (match fen_matches_game (str_of_codes o) gs with
+           | Some what -> report_spec ~key:"prop=C14" line (Printf.sprintf "op#%d: reported FEN is not the standard FEN of the game: %s" i what)
+           | None -> ())
+       | None -> ()) in
+    check 0;
+    List.iteri (fun k op ->
+        (match split_on ':' op with
+         | ["tb"] ->
+           e := fst (eng_takeback !e);
+           (match !gstack with x :: r -> g := x; gstack := r | [] -> g := None);
+           bump "engfen/takeback"
+         | ["mv"; ctok] ->
+           let s = str_of_codes ctok in
+           e := fst (eng_move zt !e s);
+           gstack := !g :: !gstack;
+           g := (match !g with Some gs -> (match smove_of_str gs s with Some sm -> Some (g_play gs sm) | None -> None) | None -> None);
+           bump "engfen/move"
+         | _ -> failwith ("bad engfen op " ^ op));
+        if k + 1 < List.length observed then check (k + 1)) ops
+  | _ -> failwith ("bad engfen: " ^ short line)
+
+let str_lower_is (s : n list) (w : string) : bool =
+  let l = List.map (fun x -> let c = int_of_n x in if c >= 65 && c <= 90 then c + 32 else c) s in
+  l = List.map Char.code (List.init (String.length w) (String.get w))
+
+let first_token (line : n list) : n list =
+  let rec go l acc = match l with [] -> List.rev acc | x :: r -> if int_of_n x = 32 then List.rev acc else go r (x :: acc) in
+  let rec skip l = match l with x :: r when int_of_n x = 32 -> skip r | _ -> l in
+  go (skip line) []
+
+let handle_ucipos line args obs =
+  let zt = zt0 () in
+  let lines = List.map str_of_codes args in
+  let observed = List.map String.trim (split_str " | " obs) in
+  if List.length observed <> List.length lines then failwith "ucipos: obs count";
+  let st = ref (Some { d_eng = empty_engine (); d_last = [] }) in
+  List.iteri (fun i l ->
+      let o = List.nth observed i in
+      let cmd = first_token l in
+      (match !st with
+       | None -> ()
+       | Some s ->
+         if str_lower_is cmd "position" then
+           st := (match cmd_position zt s l with Running s' -> Some s' | Exited -> None)
+         else if str_lower_is cmd "ucinewgame" then st := Some (cmd_ucinewgame s));
+      (* model observation *)
+      let m = (match !st with
+          | None -> "EXIT"
+          | Some s ->
+            let e = s.d_eng in
+            let h = e.e_heap and b = e.e_board in
+            Printf.sprintf "ALIVE %s %d %d %d %d %d %d" (codes_of_str (eng_position e)) (int_of_z b.b_ply)
+              (int_of_z (rep_get b.b_reps (b_hash h b))) (int_of_n b.b_result.outcome) (Dispatch2.reason_code b.b_result.rreason)
+              (int_of_n (b_noprogress h b)) (int_of_z b.b_moves)) in
+      if m <> o then report_mismatch line (Printf.sprintf "line#%d: %s" i m);
+      (* specification: the game the line describes, from the line alone *)
+      if str_lower_is cmd "position" then begin
+        match setup l with
+        | Some g ->
+          bump "ucipos/position-line";
+          (match ws o with
+           | ["EXIT"] -> report_spec ~key:"prop=C10" line (Printf.sprintf "line#%d: the driver shut down on a valid position command" i)
+           | "ALIVE" :: f :: ply :: reps :: _ ->
+             (match fen_matches_game (str_of_codes f) g with
+              | Some what -> report_spec ~key:"prop=C10" line (Printf.sprintf "line#%d: engine game differs from the one the command describes: %s" i what)
+              | None ->
+                if int_of_string ply <> 1 + List.length g.g_past then
+                  report_spec ~key:"prop=C10" line (Printf.sprintf "line#%d: history has %s positions, the command describes %d" i ply (1 + List.length g.g_past))
+                else begin
+                  let occ = int_of_z (occurrences (g.g_pos, g.g_turn) g.g_past) in
+                  if occ >= 2 then bump "ucipos/repeated-position";
+                  if int_of_string reps <> occ then
+                    report_spec ~key:"prop=C10" line (Printf.sprintf "line#%d: repetition count %s, the command describes %d occurrences" i reps occ)
+                end)
+           | _ -> ())
+        | None -> bump "ucipos/undescribed-line"
+      end) lines
+
+let handle (line : string) (kind : string) (args : string list) (obs : string) : unit =
+  match kind with
+  | "fenrt" -> handle_fenrt line args obs
+  | "decode" -> handle_decode line args obs
+  | "parsemove" -> handle_parsemove line args obs
+  | "parsesq" -> handle_parsesq line args obs
+  | "engmove" -> handle_engmove line args obs
+  | "engfen" -> handle_engfen line args obs
+  | "ucipos" -> handle_ucipos line args obs
+  | _ -> Dispatch5.handle line kind args obs
